@@ -73,6 +73,7 @@ const KNOWN_RULES: &[&str] = &[
     "opt_and_then",
     "res_map_err",
     "pub_fields",
+    "into_method",
 ];
 
 pub fn apply(repo: &str, req: &ItemReq, f: &mut FnUnderEdit) -> Result<(), String> {
@@ -308,8 +309,8 @@ pub fn apply(repo: &str, req: &ItemReq, f: &mut FnUnderEdit) -> Result<(), Strin
         f.fire("error_cause", n);
     }
     // R34 `Into::into(x)` / `TryInto::try_into(x)` as paths -> `From::from(x)` / `TryFrom::try_from(x)` (std's blanket impls)
-    if has("into_from") {
-        let mut v = IntoFrom { n: 0 };
+    if has("into_from") || has("into_method") {
+        let mut v = IntoFrom { n: 0, paths: has("into_from"), methods: has("into_method") };
         v.visit_block_mut(&mut f.block);
         let n = v.n;
         f.fire("into_from", n);
@@ -1251,9 +1252,28 @@ fn param_pat(sig: &mut syn::Signature, block: &mut syn::Block) -> usize {
 // ---------------------------------------------------------------- R34
 struct IntoFrom {
     n: usize,
+    paths: bool,
+    /// R34b: the method calls `x.into()` / `x.try_into()` -> `From::from(x)` / `TryFrom::try_from(x)` (rule `into_method`)
+    methods: bool,
 }
 impl VisitMut for IntoFrom {
+    fn visit_expr_mut(&mut self, e: &mut syn::Expr) {
+        visit_mut::visit_expr_mut(self, e);
+        if !self.methods {
+            return;
+        }
+        if let syn::Expr::MethodCall(m) = e {
+            if m.args.is_empty() && m.turbofish.is_none() && (m.method == "into" || m.method == "try_into") {
+                let recv = &m.receiver;
+                *e = if m.method == "into" { syn::parse_quote!(From::from(#recv)) } else { syn::parse_quote!(TryFrom::try_from(#recv)) };
+                self.n += 1;
+            }
+        }
+    }
     fn visit_expr_path_mut(&mut self, p: &mut syn::ExprPath) {
+        if !self.paths {
+            return;
+        }
         let t = norm(&p.path);
         if t == "Into::into" {
             *p = syn::parse_quote!(From::from);
